@@ -111,7 +111,7 @@ def case_one(case, wctx):
 def run(ctx):
     quick = ctx.tier == "quick"
     rng = ctx.rng("gen")
-    cases = [gen_case(rng, i) for i in range(48 if quick else 1200)]
+    cases = [gen_case(rng, i) for i in range(48 if quick else 300)]
     ctx.rule = ("C03 graphs (no shared-origin fan-in, 2-12 jobs, 20% with a duplicate-identity node) under debug / cf / gated cf "
                 "with random release orders; non-trivial = >=3 jobs; distinct = distinct (spec, mode)")
     ctx.record_all(ctx.pmap("vp.props.c15:case_one", cases, nproc=6, timeout=1500 if quick else 3400))
